@@ -84,8 +84,10 @@ type FilterConfig struct {
 
 // cacheItem represents an item that we will store in the cache.
 type cacheItem struct {
-	// res is the filtering result.
-	res internal.Result
+	// matched is the hashable subdomain of the host that has matched the
+	// hashes, or an empty string if none has.  The result itself is not cached,
+	// since it depends on the request and on the requester's settings.
+	matched string
 
 	// host is the cached normalized hostname for later cache key collision
 	// checks.
@@ -175,19 +177,34 @@ func (f *Filter) FilterRequest(
 ) (r internal.Result, err error) {
 	host, qt, cl := req.Host, req.QType, req.QClass
 
-	cacheKey := internal.NewCacheKey(host, qt, cl, false)
-	item, ok := f.itemFromCache(ctx, cacheKey, host)
-	f.updateCacheLookupsMetrics(ok)
-	if ok {
-		return f.clonedResult(req.DNS, item.res), nil
-	}
-
 	fam, ok := isFilterable(qt)
 	if !ok {
 		return nil, nil
 	}
 
-	var matched string
+	matched := f.match(ctx, host, qt, cl)
+	if matched == "" {
+		return nil, nil
+	}
+
+	return f.filteredResult(req, matched, fam)
+}
+
+// match returns the hashable subdomain of host that matches the hashes, if
+// any, using and updating the result cache.
+func (f *Filter) match(
+	ctx context.Context,
+	host string,
+	qt dnsmsg.RRType,
+	cl dnsmsg.Class,
+) (matched string) {
+	cacheKey := internal.NewCacheKey(host, qt, cl, false)
+	item, ok := f.itemFromCache(ctx, cacheKey, host)
+	f.updateCacheLookupsMetrics(ok)
+	if ok {
+		return item.matched
+	}
+
 	sub := hashableSubdomains(host)
 	for _, s := range sub {
 		if f.hashes.Matches(s) {
@@ -197,26 +214,14 @@ func (f *Filter) FilterRequest(
 		}
 	}
 
-	if matched == "" {
-		f.resCache.Set(cacheKey, &cacheItem{
-			res:  nil,
-			host: host,
-		})
-
-		return nil, nil
-	}
-
-	r, err = f.filteredResult(req, matched, fam)
-	if err != nil {
-		// Don't wrap the error, because it's informative enough as is.
-		return nil, err
-	}
-
-	f.setInCache(cacheKey, r, host)
+	f.resCache.Set(cacheKey, &cacheItem{
+		matched: matched,
+		host:    host,
+	})
 
 	f.updateCacheSizeMetrics(f.resCache.Len())
 
-	return r, nil
+	return matched
 }
 
 // itemFromCache retrieves a cache item for the given key.  host is used to
@@ -257,21 +262,6 @@ func isFilterable(qt dnsmsg.RRType) (fam netutil.AddrFamily, ok bool) {
 	fam = netutil.AddrFamilyFromRRType(qt)
 
 	return fam, fam != netutil.AddrFamilyNone
-}
-
-// clonedResult returns a clone of the result based on its type.  r must be nil,
-// [*internal.ResultModifiedRequest], or [*internal.ResultModifiedResponse].
-func (f *Filter) clonedResult(req *dns.Msg, r internal.Result) (clone internal.Result) {
-	switch r := r.(type) {
-	case nil:
-		return nil
-	case *internal.ResultModifiedRequest:
-		return r.Clone(f.cloner)
-	case *internal.ResultModifiedResponse:
-		return r.CloneForReq(f.cloner, req)
-	default:
-		panic(fmt.Errorf("hashprefix: unexpected type for result: %T(%[1]v)", r))
-	}
 }
 
 // filteredResult returns a filtered request or response.
@@ -333,29 +323,6 @@ func (f *Filter) respForFamily(
 		req.Messages.AddEDE(req.DNS, resp, dns.ExtendedErrorCodeFiltered)
 
 		return resp, nil
-	}
-}
-
-// setInCache sets r in cache.  It clones the result to make sure that
-// modifications to the result message down the pipeline don't interfere with
-// the cached value.  r must be either [*internal.ResultModifiedRequest] or
-// [*internal.ResultModifiedResponse].
-//
-// See AGDNS-359.
-func (f *Filter) setInCache(k internal.CacheKey, r internal.Result, host string) {
-	switch r := r.(type) {
-	case *internal.ResultModifiedRequest:
-		f.resCache.Set(k, &cacheItem{
-			res:  r.Clone(f.cloner),
-			host: host,
-		})
-	case *internal.ResultModifiedResponse:
-		f.resCache.Set(k, &cacheItem{
-			res:  r.Clone(f.cloner),
-			host: host,
-		})
-	default:
-		panic(fmt.Errorf("hashprefix: unexpected type for result: %T(%[1]v)", r))
 	}
 }
 
